@@ -159,22 +159,23 @@ func maxInt64(a, b int64) int64 {
 }
 
 func companionPartExists(cmp *sts.Partial, beg, end int64) bool {
-	overlap := int64(0)
-	var n int64
-	var minEnd int64
-	var maxBeg int64
-	for _, p := range cmp.Parts {
-		maxBeg = maxInt64(beg, p.Beg)
-		minEnd = minInt64(end, p.End)
-		n = minEnd - maxBeg
-		if n > 0 {
-			overlap += n
-			if overlap == end-beg {
-				return true
+	if end <= beg {
+		return end == beg
+	}
+	// Walk a cursor from beg toward end through the recorded parts (in any
+	// order).  Summing the overlaps instead counts bytes twice when recorded
+	// parts overlap each other and can claim bytes that were never received.
+	cur := beg
+	for progress := true; progress && cur < end; {
+		progress = false
+		for _, p := range cmp.Parts {
+			if p.Beg <= cur && cur < p.End {
+				cur = p.End
+				progress = true
 			}
 		}
 	}
-	return overlap == end-beg
+	return cur >= end
 }
 
 func isCompanionComplete(cmp *sts.Partial) bool {
